@@ -449,19 +449,20 @@ class ExcelCompiler:
 
         cell_or_range = self.cell_map[address]
 
-        if cell_or_range.value != value:  # pragma: no branch
+        if (cell_or_range.value != value or
+                type(cell_or_range.value) is not type(value)):  # pragma: no branch
             # need to be able to 'set' an empty cell, set to not None
             cell_or_range.value = value
 
             # reset the node + its dependencies
             if not self.cycles:
-                self._reset(cell_or_range)
+                self._reset(cell_or_range, force=True)
 
             # set the value
             cell_or_range.value = value
 
-    def _reset(self, cell):
-        if cell.needs_calc:
+    def _reset(self, cell, force=False):
+        if cell.needs_calc and not force:
             return
         self.log.info(f"Resetting {cell.address}")
         cell.value = None
